@@ -161,7 +161,7 @@ ADDENDA = {
     "C02": " Later additions: measurement points handed over as float32 scalars / arrays wherever the coordinates are exactly float32 numbers (a third of the grids have cell sizes in multiples of 1/16 m), switches as numpy.bool_ / 0-1, utils.point_measurement under C / Fortran / transposed / strided layouts, the analytic branch. Round 13 (call path, every relation check): source, heights and profiles spelled as big-endian or read-only arrays; a call rejected half-way in the other precision precedes half of the decoy cases. Round 14: the forward run centred on the tower (value read at the window centre) for flux maps with a zero rim.",
     "C03": " Later additions: a case kind with grids one cell wide in x or y (zero, sub-cell and wide halos: unit footprint sum, mean flux), zero sources, footprint-mode background, towers beside the map under a halo. Round 13: halo = pad / crop on grids one cell wide.",
     "C04": " Later additions: zero-source and footprint-mode background clauses; the footprint switch spelled as numpy.bool_ or 1; operands and combinations that are exactly uniform.",
-    "C05": " Later additions: in 40 % of the closed-form cases one coefficient (u, v, Kx or Ky) is exactly zero at every node; components damped by e^-750 .. e^-1500; mixed mode requests; calm wind, surface level and deep columns in the order study; an anomalously small error at 2n is judged by the least-squares order over four resolutions (>= 2.6); every other refinement requests two levels in non-ascending order. Round 12: large spectra (more than 512 x 512 retained components, with and without truncation): every resolved component of the numerical mode converges to the closed form from 2n to 8n layers. Round 13: the closed-form clause also in physical space with the unpaired cut-off components included (retained set -m/2 .. m/2-1).",
+    "C05": " Later additions: in 40 % of the closed-form cases one coefficient (u, v, Kx or Ky) is exactly zero at every node; components damped by e^-750 .. e^-1500; mixed mode requests; calm wind, surface level and deep columns in the order study; an anomalously small error at 2n is judged by the least-squares order over four resolutions (>= 2.4); every other refinement requests two levels in non-ascending order. Round 12: large spectra (more than 512 x 512 retained components, with and without truncation): every resolved component of the numerical mode converges to the closed form from 2n to 8n layers. Round 13: the closed-form clause also in physical space with the unpaired cut-off components included (retained set -m/2 .. m/2-1).",
     "C06": " Later additions: re-centring judged on the whole window under a halo (field of a compact source moved the other way, cells fed from the halo included); tower translation under a halo incl. towers outside the map; re-centring on points west / south of the map. Round 12: a tower moved by whole cells by editing its local coordinates, through run_bldfm_single / run_bldfm_multitower (with and without a reference origin).",
     "C08": " Later additions: unsigned and 16-bit integer inputs, references beside the meridians, slow-veer and cached series run twice with grid comparison, configurations re-centred with dataclasses.replace. Round 12: several output levels / the full column through the interface (the slice of the measurement node is the footprint); elongated windows (aspect 3-4.5) with the default halo; the centre of mass of the whole footprint within 15 degrees for default-halo runs (observed <= 9.0). Round 13: calm records (speed exactly zero); the direction sweep also through run_bldfm_parallel (time, 2 workers). Round 14: a light-wind record (0.42 m/s) inside the direction sweep. Round 15: wind directions given a full turn (or two) off.",
     "C10": " Later additions: unsigned level dtypes and an interface-series clause over levels 0 .. nz+1.",
